@@ -44,7 +44,15 @@ SYM6 = ["ok:0", "ok:n", "err:r", "tid:n", "ctl:n", "errctl:r"]
 SYM14 = ["ok:0", "ok:n", "err:1", "err:2", "err:3", "err:4", "err:5", "err:6", "errb:r", "tid:n", "tid:0", "ctl:n", "ctl:0", "errctl:r"]
 
 
-def _fill(n, salt):
+def _fill(n, salt, mode=None):
+    """mode None: every byte depends on its position; 'zeros' / 'ff': a constant body (a blank name, a cleared log - consecutive fragments
+    of it are byte-identical on a plain link); an int: a pattern that repeats with that period (the fragment payload size, say)."""
+    if mode == "zeros":
+        return bytes(n)
+    if mode == "ff":
+        return b"\xff" * n
+    if isinstance(mode, int) and mode > 0:
+        return bytes(((i % mode) * 7 + salt) % 251 for i in range(n))
     return bytes(((i * 7 + salt * 13 + n) % 251) for i in range(n))
 
 
@@ -226,7 +234,7 @@ def case_ble_request(p):
     """p: f (plaintext fragment budget), enc, L, opcode, tid, iid, none (pass data=None instead of b'' when L == 0), seed."""
     f, enc, L = p["f"], bool(p["enc"]), p["L"]
     opcode, tid, iid, seed = p["opcode"], p["tid"], p["iid"], p.get("seed", 0)
-    body = _fill(L, seed + 1)
+    body = _fill(L, seed + 1, p.get("fill"))
     data = None if (L == 0 and p.get("none")) else body
     N = f + blepdu.TAG if enc else f
 
@@ -266,7 +274,7 @@ def case_ble_response(p):
     fault: None | {kind: tid-first | tid-cont | noflag-cont, k: fragment index, wt: how the wrong tid is made}."""
     enc, tid, status, L = bool(p["enc"]), p["tid"], p["status"], p["L"]
     seed = p.get("seed", 0)
-    body = _fill(L, seed + 3)
+    body = _fill(L, seed + 3, p.get("fill"))
     fault = p.get("fault")
 
     def responder(req):
@@ -936,6 +944,24 @@ def run(ctx):
             for j in range(1, len(parts)):
                 resp.append({"enc": enc, "tid": 200, "status": 0, "L": L, "parts": parts, "seed": seed, "fault": {"kind": "tid-cont", "k": j, "wt": "next"}})
                 resp.append({"enc": enc, "tid": 200, "status": 0, "L": L, "parts": parts, "seed": seed, "fault": {"kind": "noflag-cont", "k": j}})
+    # bodies whose fragments look alike: constant, and repeating with the fragment payload size (on a plain link two consecutive
+    # continuation fragments are then byte-identical; under encryption they never are)
+    for f, L in ((20, 96), (20, 300), (64, 400), (8, 40)) if quick else ((20, 96), (20, 300), (20, 2000), (64, 400), (64, 1000), (155, 1000), (8, 40), (8, 41)):
+        for parts in (blepdu.uniform_parts(L, f), [0] + blepdu.uniform_parts(L, f - 2)):
+            psize = max(parts)
+            for fill in ("zeros", "ff", psize, 2 * psize):
+                for enc in (0, 1):
+                    resp.append({"enc": enc, "tid": 77, "status": 0, "L": L, "parts": parts, "seed": seed, "fill": fill})
+    for L in range(3, 9):
+        for parts in blepdu.compositions(L):
+            if len(parts) >= 3:
+                for enc in (0, 1):
+                    resp.append({"enc": enc, "tid": 78, "status": 0, "L": L, "parts": parts, "seed": seed, "fill": "zeros"})
+    for f, L in ((20, 96), (64, 400), (8, 40)):
+        for fill in ("zeros", f - 2, f - 4):
+            for enc in (0, 1):
+                req.append({"f": f, "enc": enc, "L": L, "opcode": 2, "tid": 79, "iid": 10, "seed": seed, "fill": fill})
+    work += _chunks("ble_request", [r for r in req if r.get("fill") is not None], 50)
     work += _chunks("ble_response", resp, 600)
     ctx.bounds["ble_response"] = dict(
         compositions=f"all 2^(L-1) compositions for L=1..{lmax}, each also behind a first fragment without body bytes, x {{plain, encrypted}} x statuses (all 7 for L<=6, else 0 and 4)",
